@@ -57,13 +57,13 @@ func (v *Violation) Sig() string {
 
 // Result is what one worker (or a merge of workers) observed.
 type Result struct {
-	Cases      int               `json:"cases"`
-	Counters   map[string]int    `json:"counters"`
+	Cases      int                 `json:"cases"`
+	Counters   map[string]int      `json:"counters"`
 	Distinct   map[string][]uint64 `json:"distinct"` // per class: hashes of distinct abstract cases
-	Violations []*Violation      `json:"violations"`
-	NViol      map[string]int    `json:"nviol"` // per rule, uncapped
-	Samples    []any             `json:"samples"`
-	Notes      []string          `json:"notes"`
+	Violations []*Violation        `json:"violations"`
+	NViol      map[string]int      `json:"nviol"` // per rule, uncapped
+	Samples    []any               `json:"samples"`
+	Notes      []string            `json:"notes"`
 }
 
 // NewResult returns an empty result.
